@@ -41,8 +41,8 @@ RULE = (
     "generation byte-identical, --check exits 0; distinct_nontrivial = distinct (config, template, async, files) generations"
 )
 BOUNDS = {
-    "quick": "10 corpus + 9 alternative-spelling/explicit-default + 7 hostile + 62 reference-position machines + 12 Stately exports x 5 templates x 2 async x 2 file counts",
-    "thorough": "10 corpus + 9 alternative-spelling/explicit-default + 7 hostile + 172 reference-position machines + all 104 Stately exports x 5 templates x 2 async x 2 file counts",
+    "quick": "10 corpus + 10 alternative-spelling/explicit-default/keyword-prefixed + 7 hostile + 62 reference-position machines + 12 Stately exports x 5 templates x 2 async x 2 file counts",
+    "thorough": "10 corpus + 10 alternative-spelling/explicit-default/keyword-prefixed + 7 hostile + 172 reference-position machines + all 104 Stately exports x 5 templates x 2 async x 2 file counts",
 }
 ASSUMPTIONS = [
     "the generated runner's main() (demo simulation) is not executed; the logic module / machine builder is",
@@ -121,6 +121,15 @@ def extra() -> Dict[str, Dict[str, Any]]:
         "a": {"type": "atomic", "entry": [], "on": {"SELF": "a", "SELF2": {"target": "a", "reenter": False, "actions": ["s2"]}, "N": {"target": "b", "actions": []}}},
         "b": {"type": "compound", "initial": "y", "states": {"x": {"on": {"N": "y"}}, "y": {"on": {"N": "x", "UP": "#ed.a"}, "tags": []}},
               "on": {"A": "a"}, "after": {"0": {"target": "a", "guard": "never"}}}}}
+    # names that merely BEGIN with a Python statement keyword (line-based post-processing of generated text must not mistake them)
+    e["keyword_prefixed_names"] = {"id": "sync", "initial": "importing", "states": {
+        "importing": {"initial": "fetch", "entry": ["fromCache", "defer"], "states": {
+            "fetch": {"initial": "a", "states": {"a": {"on": {"N": "b"}}, "b": {"on": {"N": "a"}}}, "on": {"DONE": "classify"}},
+            "classify": {"entry": ["classify", "returnHome"], "on": {"BACK": "fetch"}}},
+            "on": {"NEXT": "fromStore"}},
+        "fromStore": {"invoke": {"id": "imp", "src": "importOrders", "onDone": {"target": "withdrawing", "actions": ["passThrough"]}, "onError": "importing"},
+                      "on": {"guardOpen": {"target": "withdrawing", "guard": "isinstanceOk"}}},
+        "withdrawing": {"entry": ["raiseAlarm", "asyncTask", "whileWaiting", "tryAgain", "globalReset"], "on": {"NEXT": "importing"}}}}
     e["legacy_keys"] = {"id": "lk", "initial": "a", "states": {
         "a": {"onEntry": ["inA"], "onExit": ["outA"], "on": {"": {"target": "b", "cond": "auto"}, "N": "b"}}, "b": {"on": {"N": "a"}}}}
     return e
